@@ -12,11 +12,25 @@ func init() {
 		}
 		genMix(p, r, "C04")
 	}
-	generators["C05"] = func(p *Plan, r *RNG) { genMix(p, r, "C05") }
+	generators["C05"] = func(p *Plan, r *RNG) {
+		if r.Chance(1, 8) {
+			genC05Shared(p, r)
+			return
+		}
+		if r.Chance(1, 12) {
+			genC19StalledStream(p, r)
+			return
+		}
+		genMix(p, r, "C05")
+	}
 	generators["C08"] = func(p *Plan, r *RNG) { withRace(p, r, 5, func() { genMix(p, r, "C08") }) }
 	generators["C19"] = func(p *Plan, r *RNG) {
 		if r.Chance(1, 12) {
 			genC19Reservation(p, r)
+			return
+		}
+		if r.Chance(1, 10) {
+			genC19StalledStream(p, r)
 			return
 		}
 		withRace(p, r, 6, func() { genMix(p, r, "C19") })
@@ -53,7 +67,7 @@ func payloadLen(r *RNG, bias string) int {
 
 func contentKind(r *RNG, bias string) string {
 	if bias == "C05" || r.Chance(1, 6) {
-		return r.Pick([]string{"rand", "rand", "zero", "stunlike", "stunvalid", "chanlike"})
+		return r.Pick([]string{"rand", "rand", "zero", "stunlike", "stunvalid", "chanlike", "cookie0"})
 	}
 	return "rand"
 }
@@ -394,7 +408,17 @@ func addSlowStreamClient(p *Plan, r *RNG) {
 	for k := r.Range(6, 40); k > 0; k-- {
 		ops = append(ops, Op{Actor: peer.ID, Kind: "peer_send", At: gap(int64(r.Range(1, 60)) * ms), A: OpArgs{Target: c, Len: r.PickInt([]int{100, 700, 1200, 1500})}})
 	}
-	ops = append(ops, Op{Actor: c, Kind: "tcp_resume", At: gap(r.PickI64([]int64{300 * ms, 6 * sec, 31 * sec}))})
+	resume := r.PickI64([]int64{300 * ms, 6 * sec, 31 * sec})
+	if r.Chance(1, 2) {
+		// the client goes on sending requests while it does not read: their responses queue up
+		// behind the relayed data on the same stream - whole frames, in order, nothing cut
+		for k := r.Range(1, 3); k > 0 && resume > sec; k-- {
+			g := r.PickI64([]int64{100 * ms, resume / 4})
+			resume -= g
+			ops = append(ops, Op{Actor: c, Kind: r.Pick([]string{"binding", "refresh"}), At: gap(g), A: OpArgs{Lifetime: 600}})
+		}
+	}
+	ops = append(ops, Op{Actor: c, Kind: "tcp_resume", At: gap(resume)})
 	for k := r.Range(2, 6); k > 0; k-- {
 		ops = append(ops, Op{Actor: peer.ID, Kind: "peer_send", At: gap(int64(r.Range(20, 300)) * ms), A: OpArgs{Target: c, Len: r.PickInt([]int{100, 700, 1200})}})
 	}
@@ -524,4 +548,120 @@ func addHairpin(p *Plan, r *RNG) {
 			o.A.N += len(ops)
 		}
 	}
+}
+
+// genC05Shared: what relay loops of different allocations might share (a recycled frame, a
+// cached buffer, a lookup result) shows only when two of them are inside their forwarding at
+// once - and often only after something has gone wrong once (a failed write toward a client
+// whose clean-up returns a resource twice). Several clients hold channels to the same peers;
+// an early relayed write fails; then the socket write of one forwarded datagram is parked while
+// the other allocations forward theirs, round after round, over channels and as indications.
+func genC05Shared(p *Plan, r *RNG) {
+	baseSrvConfig(p, r)
+	p.Flavor = "shared-relay-state"
+	p.Cfg.PermTimeoutS, p.Cfg.ChanTimeoutS, p.Cfg.AllocLifeS = 0, 0, 0
+	nc := r.Range(2, 3)
+	addClients(p, r, nc)
+	addPeers(p, r, 2)
+	add := func(o Op) int {
+		p.Ops = append(p.Ops, o)
+		return len(p.Ops)
+	}
+	writes := 0 // writes on the listener socket so far (challenge + success per first request, then one each)
+	for i := 0; i < nc; i++ {
+		c := p.Clients[i].ID
+		add(Op{Actor: c, Kind: "allocate", At: gap(int64(r.Range(10, 200)) * ms), A: OpArgs{Lifetime: -1}})
+		writes += 2
+		for k, pe := range p.Peers {
+			if k == 0 || r.Chance(1, 2) {
+				add(Op{Actor: c, Kind: "chanbind", At: gap(int64(r.Range(50, 200)) * ms), A: OpArgs{Peer: pe.Addr, Chan: 0x4000 + k}})
+			} else {
+				add(Op{Actor: c, Kind: "createperm", At: gap(int64(r.Range(50, 200)) * ms), A: OpArgs{Peer: pe.Addr}})
+			}
+			writes++
+		}
+	}
+	lens := []int{1, 7, 40, 300, 1200}
+	send := func(at TimeSpec) int {
+		pe := p.Peers[r.Intn(len(p.Peers))]
+		return add(Op{Actor: pe.ID, Kind: "peer_send", At: at, A: OpArgs{Target: p.Clients[r.Intn(nc)].ID, Len: r.PickInt(lens)}})
+	}
+	warm := r.Range(2, 6)
+	for i := 0; i < warm; i++ {
+		send(gap(int64(r.Range(20, 300)) * ms))
+	}
+	if r.Chance(2, 3) {
+		// one of the warm-up datagrams (or of the first round) cannot be written to its client
+		p.IOFaults = append(p.IOFaults, IOFault{M: Match{Sock: "listener", Op: "WriteTo", Nth: writes + r.Range(1, warm+1)}, Do: "error"})
+		p.Flavor += "+write-error"
+	}
+	for round := r.Range(1, 4); round > 0; round-- {
+		park := r.PickI64([]int64{20 * ms, 200 * ms, sec})
+		x := send(gap(int64(r.Range(100, 600)) * ms))
+		p.Stalls = append(p.Stalls, Stall{M: Match{Class: "sock:listener:WriteTo", Args: "*", Nth: 1}, ParkNS: park, AfterOp: x})
+		for k := r.Range(1, 3); k > 0; k-- {
+			send(gap(park / int64(r.Range(3, 6))))
+		}
+		add(Op{Actor: "", Kind: "wait", At: gap(park + 50*ms)})
+		for k := r.Range(1, 3); k > 0; k-- {
+			send(gap(int64(r.Range(10, 100)) * ms))
+		}
+	}
+	p.QuietNS = 5 * sec
+}
+
+// genC19StalledStream: a stream client stops reading while relayed data keeps coming and goes
+// on sending requests meanwhile. Everything toward it queues behind the shut window - relayed
+// frames and responses from two goroutines of the server on one connection. When it reads
+// again, what arrives is whole frames in order with every response among them; another client
+// of the listener is served throughout.
+func genC19StalledStream(p *Plan, r *RNG) {
+	baseSrvConfig(p, r)
+	p.Flavor = "stalled-stream"
+	p.Cfg.Listener = "tcp"
+	p.Cfg.PermTimeoutS, p.Cfg.ChanTimeoutS, p.Cfg.AllocLifeS = 0, 0, 0
+	addClients(p, r, 2)
+	addPeers(p, r, 1)
+	c, c2, pe := p.Clients[0].ID, p.Clients[1].ID, p.Peers[0]
+	p.Streams = append(p.Streams, StreamCut{Conn: "srv>*", Window: r.PickInt([]int{600, 1024, 2500, 4096})})
+	add := func(o Op) { p.Ops = append(p.Ops, o) }
+	add(Op{Actor: c, Kind: "allocate", At: gap(int64(r.Range(10, 200)) * ms), A: OpArgs{Lifetime: -1}})
+	add(Op{Actor: c2, Kind: "allocate", At: gap(int64(r.Range(10, 200)) * ms), A: OpArgs{Lifetime: -1}})
+	if r.Chance(1, 2) {
+		add(Op{Actor: c, Kind: "chanbind", At: gap(200 * ms), A: OpArgs{Peer: pe.Addr, Chan: 0x4000}})
+	} else {
+		add(Op{Actor: c, Kind: "createperm", At: gap(200 * ms), A: OpArgs{Peer: pe.Addr}})
+	}
+	add(Op{Actor: c, Kind: "tcp_pause", At: gap(300 * ms)})
+	for k := r.Range(3, 14); k > 0; k-- {
+		add(Op{Actor: pe.ID, Kind: "peer_send", At: gap(int64(r.Range(1, 40)) * ms), A: OpArgs{Target: c, Len: r.PickInt([]int{100, 333, 700, 1201, 1500})}})
+	}
+	stall := r.PickI64([]int64{2 * sec, 5 * sec, 9 * sec, 35 * sec})
+	left := stall
+	for k := r.Range(1, 4); k > 0 && left > 200*ms; k-- {
+		g := r.PickI64([]int64{50 * ms, 300 * ms, left / 3})
+		left -= g
+		switch r.Intn(3) {
+		case 0:
+			add(Op{Actor: c, Kind: "binding", At: gap(g)})
+		case 1:
+			add(Op{Actor: c, Kind: "refresh", At: gap(g), A: OpArgs{Lifetime: 600}})
+		case 2:
+			add(Op{Actor: c2, Kind: "binding", At: gap(g)})
+		}
+		if r.Chance(1, 2) {
+			add(Op{Actor: pe.ID, Kind: "peer_send", At: gap(10 * ms), A: OpArgs{Target: c, Len: r.PickInt([]int{100, 700, 1201})}})
+			left -= 10 * ms
+		}
+	}
+	if left < ms {
+		left = ms
+	}
+	add(Op{Actor: c, Kind: "tcp_resume", At: gap(left)})
+	for k := r.Range(1, 4); k > 0; k-- {
+		add(Op{Actor: pe.ID, Kind: "peer_send", At: gap(int64(r.Range(20, 300)) * ms), A: OpArgs{Target: c, Len: r.PickInt([]int{100, 700, 1200})}})
+	}
+	add(Op{Actor: c, Kind: "binding", At: gap(500 * ms)})
+	add(Op{Actor: c2, Kind: "refresh", At: gap(200 * ms), A: OpArgs{Lifetime: 600}})
+	p.QuietNS = 10 * sec
 }
